@@ -531,4 +531,115 @@ theorem collect_goodA {a : Arena} (h : Inv a) (m : Method) (k : Cont) (fault : T
   simp only [Bool.false_eq_true, if_false]
   exact key _ a.marked h.unmark rfl h0
 
+/-- Not a replayed collection call. -/
+def Op.selfDriven : Op → Bool
+  | .collect _ _ _ (some _) => false
+  | _ => true
+
+theorem run_goodA (ops : List Op) : ∀ (a : Arena), Inv a → GoodA a.ctx →
+    (∀ op, op ∈ ops → op.selfDriven = true ∧ op.keepsCycle = true) → (a.run ops).alive = true →
+    ∃ new, (a.run ops).ctx.steps = new ++ a.ctx.steps ∧ ('Z' ∉ new → GoodA (a.run ops).ctx) := by
+  induction ops with
+  | nil => intro a _ g _ _; exact ⟨[], rfl, fun _ => g⟩
+  | cons op ops ih =>
+    intro a h g hall hal
+    simp only [Arena.run] at hal ⊢
+    have hal1 : (a.step op).1.alive = true := by
+      cases hx : (a.step op).1.alive with
+      | true => rfl
+      | false => rw [run_dead hx] at hal; rw [hx] at hal; cases hal
+    have h1 := inv_step h op hal1
+    have hall' : ∀ o, o ∈ ops → o.selfDriven = true ∧ o.keepsCycle = true :=
+      fun o ho => hall o (List.mem_cons_of_mem _ ho)
+    -- this operation
+    have hop : ∃ new, (a.step op).1.ctx.steps = new ++ a.ctx.steps ∧
+        ('Z' ∉ new → GoodA (a.step op).1.ctx) := by
+      by_cases hmut : op.isMutator = true
+      · exact ⟨[], by simpa using step_steps a op hmut, fun _ => mutator_goodA h g op hmut⟩
+      · cases op with
+        | collect m k f o =>
+          cases o with
+          | none => exact collect_goodA h m k f (Or.inl g)
+          | some ms =>
+            have := (hall (.collect m k f (some ms)) (by simp)).1
+            simp [Op.selfDriven] at this
+        | dropArena =>
+          have hnot : (!a.alive) = false := by rw [h.alive]; rfl
+          unfold Arena.step at hal1 ⊢
+          rw [hnot] at hal1 ⊢
+          simp only [Bool.false_eq_true, if_false, Arena.stepBody] at hal1 ⊢
+          by_cases hcb : a.cb.isSome = true
+          · rw [if_pos hcb]; exact ⟨[], rfl, fun _ => g⟩
+          · rw [if_neg hcb] at hal1; simp at hal1
+        | _ => simp [Op.isMutator] at hmut
+    obtain ⟨new1, e1, f1⟩ := hop
+    by_cases hz : 'Z' ∈ new1
+    · obtain ⟨new2, e2, _⟩ := run_cycRel ops _ h1 (fun o ho => (hall' o ho).2) hal
+      exact ⟨new2 ++ new1, by rw [e2, e1, List.append_assoc],
+        fun hn => absurd (List.mem_append_right _ hz) hn⟩
+    · obtain ⟨new2, e2, f2⟩ := ih _ h1 (f1 hz) hall' hal
+      exact ⟨new2 ++ new1, by rw [e2, e1, List.append_assoc],
+        fun hn => f2 (fun hm => hn (List.mem_append_left _ hm))⟩
+
+/-- **Inside one cycle, self-driven calls never leave an empty arena awake.**  `a0`: asleep with
+    positive debt, outside callbacks; a self-driven debt-driven call wakes it; `post`: mutator
+    operations and self-driven collection calls only; no `'Z'` appended.  Then a final
+    `cycle_debt` that returns with the cycle unfinished returns with a non-empty arena. -/
+theorem selfdriven_nonempty {a0 : Arena} (h0 : Inv a0) (hacc0 : Acc a0.ctx) (hcb0 : a0.cb = none)
+    (hs : a0.ctx.phase = .sleep) (hd : 0 < a0.ctx.metrics.allocationDebt)
+    (m : Method) (hm : (Arena.methodArgs m).1 = .payDebt) (k : Cont) (wfault : TraceFault)
+    (post : List Op) (hpost : ∀ op, op ∈ post → op.selfDriven = true ∧ op.keepsCycle = true)
+    (hal : (a0.run (.collect m k wfault none :: post)).alive = true)
+    (hcb : (a0.run (.collect m k wfault none :: post)).cb = none)
+    (new : List Char)
+    (hsteps : (a0.run (.collect m k wfault none :: post)).ctx.steps = new ++ a0.ctx.steps)
+    (hz : 'Z' ∉ new) {fault : TraceFault} {c' : Ctx}
+    (hr : (a0.run (.collect m k wfault none :: post)).ctx.doCollection
+            (a0.run (.collect m k wfault none :: post)).root .payDebt .finishCycle fault = (c', .returned))
+    (hns : c'.phase ≠ .sleep) : c'.metrics.totalGcs ≠ 0 := by
+  have hhd : a0.ctx.metrics.hasDebt = true := by simpa [Metrics.hasDebt] using hd
+  have hi2 := inv_run_from _ h0 hal
+  have hc2 : CInv (a0.run (.collect m k wfault none :: post)).ctx
+      (a0.run (.collect m k wfault none :: post)).root [] := by
+    have := hi2.cinv; rw [hi2.cbTemps hcb] at this; exact this
+  have hacc2 := acc_run_from _ a0 h0 hacc0 hal
+  -- the state before the final call is good
+  have g2 : GoodA (a0.run (.collect m k wfault none :: post)).ctx := by
+    simp only [Arena.run] at hal hsteps ⊢
+    have hal1 : (a0.step (.collect m k wfault none)).1.alive = true := by
+      cases hx : (a0.step (.collect m k wfault none)).1.alive with
+      | true => rfl
+      | false => rw [run_dead hx] at hal; rw [hx] at hal; cases hal
+    have h1 := inv_step h0 _ hal1
+    obtain ⟨new1, e1, f1⟩ := collect_goodA h0 m k wfault (Or.inr ⟨hcb0, hs, hm, hhd⟩)
+    by_cases hz1 : 'Z' ∈ new1
+    · obtain ⟨new2, e2, _⟩ := run_cycRel post _ h1 (fun o ho => (hpost o ho).2) hal
+      have : new2 ++ new1 = new :=
+        List.append_cancel_right ((by rw [e2, e1, List.append_assoc] :
+          ((a0.step (.collect m k wfault none)).1.run post).ctx.steps = (new2 ++ new1) ++ a0.ctx.steps).symm.trans hsteps)
+      exact absurd (this ▸ List.mem_append_right _ hz1) hz
+    · obtain ⟨new2, e2, f2⟩ := run_goodA post _ h1 (f1 hz1) hpost hal
+      have : new2 ++ new1 = new :=
+        List.append_cancel_right ((by rw [e2, e1, List.append_assoc] :
+          ((a0.step (.collect m k wfault none)).1.run post).ctx.steps = (new2 ++ new1) ++ a0.ctx.steps).symm.trans hsteps)
+      exact f2 (fun hm2 => hz (this ▸ List.mem_append_left _ hm2))
+  -- the final call
+  have hreach : Reaches (a0.run (.collect m k wfault none :: post)).ctx
+      (a0.run (.collect m k wfault none :: post)).root c' := by
+    have := doCollection_reaches (ru := .payDebt) (stop := .finishCycle) (fault := fault) hc2
+    rw [hr] at this; exact this
+  have hc' := hreach.inv hc2
+  have hacc' := hreach.acc hc2 hacc2
+  obtain ⟨fr, _⟩ := doCollection_cycle_frame hc2 hr hns
+  have g' : GoodA c' := by
+    refine ⟨hns, fun hmk => ?_, ?_⟩
+    · have hf := (hacc'.2.1 hmk).frd
+      have hsum := fr.sum
+      have := g2.nonempty hc2
+      omega
+    · rcases doCollection_cycle_notParked hc2 hr hns with e | np
+      · rw [e]; exact g2.notParked
+      · exact np
+  exact g'.nonempty hc'
+
 end GcArena
